@@ -9,6 +9,8 @@ import (
 	"fmt"
 	"go/token"
 	"go/types"
+
+	"golang.org/x/tools/go/ssa"
 )
 
 type gstate int
@@ -267,4 +269,80 @@ func (i *interpreter) chanClose(ch *schan) {
 		s.state = gRunnable // they will panic on wake
 	}
 	ch.sendq = nil
+}
+
+func (i *interpreter) otherRunnable() bool {
+	for _, g := range i.gs {
+		if g != i.cur && g.state == gRunnable {
+			return true
+		}
+	}
+	return false
+}
+
+// letOthersRun parks the current goroutine as runnable until condition holds; a
+// condition that cannot become true because nobody else can run is a deadlock.
+func (i *interpreter) waitUntil(cond func() bool, what string) {
+	for !cond() {
+		if !i.otherRunnable() {
+			panic(pathEnd{kind: "deadlock", msg: what + ": all goroutines are blocked: " + i.blockedSummary()})
+		}
+		i.cur.state = gRunnable
+		i.yieldTo()
+	}
+}
+
+func chanSendReady(ch *schan) bool {
+	return ch != nil && (ch.closed || len(ch.recvq) > 0 || len(ch.buf) < ch.cap)
+}
+
+func chanRecvReady(ch *schan) bool {
+	return ch != nil && (len(ch.buf) > 0 || len(ch.sendq) > 0 || ch.closed)
+}
+
+// selectStmt: the first ready case in source order is taken (Go picks uniformly among
+// the ready ones: one of the admissible schedules); with no ready case a non-blocking
+// select takes its default, a blocking one lets the other goroutines run and retries.
+func (i *interpreter) selectStmt(fr *frame, instr *ssa.Select) value {
+	chans := make([]*schan, len(instr.States))
+	for k, st := range instr.States {
+		chans[k], _ = fr.get(st.Chan).(*schan)
+	}
+	ready := func() int {
+		for k, st := range instr.States {
+			if st.Dir == types.SendOnly && chanSendReady(chans[k]) {
+				return k
+			}
+			if st.Dir == types.RecvOnly && chanRecvReady(chans[k]) {
+				return k
+			}
+		}
+		return -1
+	}
+	k := ready()
+	if k < 0 && instr.Blocking {
+		i.waitUntil(func() bool { return ready() >= 0 }, "select")
+		k = ready()
+	}
+	res := tuple{k, false}
+	var recvVals []value
+	for j, st := range instr.States {
+		if st.Dir != types.RecvOnly {
+			continue
+		}
+		elem := st.Chan.Type().Underlying().(*types.Chan).Elem()
+		v := zero(elem)
+		if j == k {
+			rv, ok := i.chanRecv(chans[j])
+			if ok {
+				v = rv
+			}
+			res[1] = ok
+		}
+		recvVals = append(recvVals, v)
+	}
+	if k >= 0 && instr.States[k].Dir == types.SendOnly {
+		i.chanSend(chans[k], fr.get(instr.States[k].Send))
+	}
+	return append(res, recvVals...)
 }
